@@ -39,13 +39,16 @@ Definition known_codes : list Z :=
   map fst m_key_certificate_CryptoKeySizes_CryptoPublicKeySize ++
   map fst m_key_certificate_CryptoPublicKeySizes ++
   map fst m_key_certificate_SignaturePublicKeySizes ++
-  flat_map fst sw_offline_signature_SigningPublicKeySize ++
-  flat_map fst sw_offline_signature_SignatureSize ++
   map fst spec_signing ++ map fst spec_crypto.
 
-Definition nz (v : Z) : option Z := if v =? 0 then None else Some v.
 
 (* the agreement statement for one code in 0..65535 *)
+Definition agree_kc (t : Z) : bool :=
+  optZ_eqb (kc_sig_size t) (spec_sig_len t) &&
+  optZ_eqb (kc_spk_size t) (spec_spk_len t) &&
+  optZ_eqb (kc_sig_pub_sizes t) (spec_spk_len t) &&
+  optZ_eqb (kc_crypto_size t) (spec_crypto_len t) &&
+  optZ_eqb (kc_crypto_pub_sizes t) (spec_crypto_len t).
 Definition agree_code (t : Z) : bool :=
   optZ_eqb (kc_sig_size t) (spec_sig_len t) &&
   optZ_eqb (kc_spk_size t) (spec_spk_len t) &&
@@ -55,26 +58,36 @@ Definition agree_code (t : Z) : bool :=
   optZ_eqb (kc_crypto_size t) (spec_crypto_len t) &&
   optZ_eqb (kc_crypto_pub_sizes t) (spec_crypto_len t).
 
-Lemma agree_known : forallb agree_code known_codes = true.
+Lemma agree_known : forallb agree_kc known_codes = true.
 Proof. vm_compute. reflexivity. Qed.
 Lemma known_codes_range : forallb (fun t => (0 <=? t) && (t <=? 65535)) known_codes = true.
 Proof. vm_compute. reflexivity. Qed.
 
-Lemma agree_unknown t : 0 <= t <= 65535 -> ~ In t known_codes -> agree_code t = true.
+Lemma agree_unknown t : 0 <= t <= 65535 -> ~ In t known_codes -> agree_kc t = true.
 Proof.
   intros R H. unfold known_codes in H. repeat rewrite in_app_iff in H.
-  unfold agree_code, kc_sig_size, kc_spk_size, kc_sig_pub_sizes, kc_crypto_size, kc_crypto_pub_sizes,
-    off_spk_size, off_sig_size, spec_sig_len, spec_spk_len, spec_crypto_len.
+  unfold agree_kc, kc_sig_size, kc_spk_size, kc_sig_pub_sizes, kc_crypto_size, kc_crypto_pub_sizes,
+    spec_sig_len, spec_spk_len, spec_crypto_len.
   rewrite (Z.mod_small t 65536) by lia.
-  rewrite !assoc_notin, !sw_lookup_notin, !lookup_notin by tauto.
+  rewrite !assoc_notin, !lookup_notin by tauto.
   reflexivity.
 Qed.
 
+Lemma optZ_eqb_refl a : optZ_eqb a a = true.
+Proof. destruct a; cbn; [apply Z.eqb_refl|reflexivity]. Qed.
+
+(* the key-certificate maps by the known / unknown split over the regenerated tables; the two
+   offline_signature size functions by the 65 536-code sweep of Proofs/SigLen.v *)
 Theorem tables_agree_all : forall t, 0 <= t <= 65535 -> agree_code t = true.
 Proof.
-  intros t R. destruct (in_dec Z.eq_dec t known_codes) as [I|N].
-  - pose proof agree_known as K. rewrite forallb_forall in K. apply K. exact I.
-  - apply agree_unknown; assumption.
+  intros t R.
+  assert (K : agree_kc t = true).
+  { destruct (in_dec Z.eq_dec t known_codes) as [I|N].
+    - pose proof agree_known as K. rewrite forallb_forall in K. apply K. exact I.
+    - apply agree_unknown; assumption. }
+  destruct (off_sizes_in_range t R) as (OA & OB & _ & _).
+  unfold agree_kc in K. repeat rewrite Bool.andb_true_iff in K. destruct K as [[[[A B] C] G] I].
+  unfold agree_code. rewrite A, B, C, G, I, OA, OB, !optZ_eqb_refl. reflexivity.
 Qed.
 
 Lemma C10_aux_crypto t : 0 <= t <= 65535 -> kc_crypto_size t = spec_crypto_len t /\ kc_crypto_pub_sizes t = spec_crypto_len t.
